@@ -140,7 +140,7 @@ func checkCmd(args []string) {
 		os.Exit(2)
 	}
 	t0 := time.Now()
-	c := &Ctx{Prop: *prop, Tier: *tier, Seed: seed, Functions: map[string]string{}, Extra: map[string]any{}, T0: t0, WriteBase: *writeBase, Propose: *propose}
+	c := &Ctx{Prop: *prop, Tier: *tier, Seed: seed, Functions: map[string]string{}, Extra: map[string]any{}, Assume: []string{}, Notes: []string{}, Bounded: []string{}, T0: t0, WriteBase: *writeBase, Propose: *propose}
 	c.Baseline = map[string]BaseEntry{}
 	loadJSON(filepath.Join(verifDir, "baseline", *prop+".json"), &c.Baseline)
 	var all []Finding
@@ -254,6 +254,10 @@ func knownFor(c *Ctx, name string) *Finding {
 // replay files, prints VIOLATION / KNOWN-FINDING lines and returns the exit code.
 func finish(c *Ctx, pd *propDef) int {
 	sort.SliceStable(c.Items, func(i, j int) bool { return c.Items[i].Name < c.Items[j].Name })
+	if len(c.Items) == 0 {
+		fmt.Println("ERROR: no obligations were generated (vacuous run): contracts missing or functions under contract not found")
+		return 2
+	}
 	replayDir := filepath.Join(verifDir, "replays", c.Prop)
 	_ = os.MkdirAll(replayDir, 0o755)
 	if c.WriteBase {
